@@ -428,6 +428,14 @@ def focus_chars(data, n, seed, all_features):
     chars = sorted(cm)
     if len(chars) <= n:
         return chars + sorted({s for (_b, s) in uvs} - set(chars))[:max(0, n - len(chars))]
+    reserved = []
+    if uvs:
+        # a format 14 subtable: two selectors and three of their base characters are always in
+        sels = sorted({sel for (_b, sel) in uvs})[:2]
+        bases = sorted({b for (b, sel) in uvs if sel in sels and b in cm})[:3]
+        reserved = bases + sels
+        n = max(1, n - len(reserved))
+        chars = [c for c in chars if c not in reserved]
     lg = layout_glyphs(font)
     cand = [c for c in chars if cm[c] in lg and not _ignorable(c)][:48]
     hbf = hbridge.HBFont(data)
@@ -454,4 +462,5 @@ def focus_chars(data, n, seed, all_features):
         active = active[start:start + n]
     rest = [c for c in cand if c not in active] + [c for c in chars if c not in cand and not _ignorable(c) and c >= 0x20]
     # always keep one character without layout involvement when there is room
-    return sorted((active + rest)[:n])
+    out = sorted((active + rest)[:n] + reserved)
+    return out or chars[:n]
